@@ -313,7 +313,8 @@ def check_order(ctx: Context, rep, rule: str) -> None:
     def mentions_byteorder(e: ast.AST) -> bool:
         return any(isinstance(x, ast.Attribute) and x.attr == "byteorder" and
                    norm.canon(fn, x).endswith("dtype.byteorder")
-                   for x in ast.walk(e))
+                   for x in ast.walk(e)) or "dtype.byteorder" in norm.canon(
+                       fn, e)
 
     tests = [n for n in wcfg.nodes if n.kind == "test" and n.ast is not None
              and mentions_byteorder(n.ast)]
